@@ -11,7 +11,13 @@ RULE = ("programs with 1–4 methods of arity 0–3 (bodies display their name a
         "properties; a method of one object calling a method of a linked object that handles a failure (抛出 / 1/0 / unknown method) "
         "raised 0–3 calls below its handler, then reading and writing its own 其横; all objects' properties displayed after each object "
         "operation. Non-trivial = at least one call with arguments "
-        "and one object operation.")
+        "and one object operation. Stream `inst`: one or two types whose default properties are scalars (numbers in every notation, "
+        "numerals as texts, truth values, 空), a list, a dictionary, an object (shared by reference) and expressions over program "
+        "inputs / planted display calls (evaluated once, at the definition); constructors that assign, change in place, do both or are "
+        "absent; 2–3 instances created first and more in between; properties changed IN PLACE without having been assigned on that "
+        "object (自增 / 自减 / 转换数值 through 其, through 对象之属性, through a chain, through a linked object, on items of the default "
+        "containers) and by plain assignment; after every step every property of every instance, of a fresh instance of every type "
+        "and the program inputs are displayed. Non-trivial there = at least one in-place change and two instances.")
 ASSUMPTIONS = ["unbounded recursion (Go stack exhaustion) is outside the quantifier"]
 PARTIAL = "computed properties (何为) are compiled but never consulted by the evaluator; not generated"
 
@@ -21,3 +27,7 @@ def run(ctx):
     n = ctx.n(1500, 40000)
     ps = [g.call_program() for _ in range(n)]
     progs.run_stream(ctx, 'call', ps, nontrivial=lambda src, go: '新建点' in src and '（算' in src)
+    # instances and their defaults (after the call stream, so that the call stream of a given seed is what it was)
+    m = ctx.n(400, 12000)
+    qs = [g.inst_program() for _ in range(m)]
+    progs.run_stream(ctx, 'inst', qs, nontrivial=lambda src, go: src.count('令件') >= 2 and ('（自增' in src or '（增：' in src or '（减：' in src))
